@@ -554,6 +554,7 @@ pub struct Ctx<'a> {
     pub loops: usize,
     pub closures: usize,
     pub dasserts: usize,
+    pub loop_heads: Vec<String>,
 }
 
 impl<'a> Ctx<'a> {
@@ -615,16 +616,21 @@ impl<'c, 'a> VisitMut for Numberer<'c, 'a> {
             Expr::While(w) => {
                 let n = self.cx.loops;
                 self.cx.loops += 1;
+                let c = &w.cond;
+                self.cx.loop_heads.push(norm(quote!(while #c)));
                 w.body.stmts.insert(0, marker_stmt("__vp_loop", &n.to_string()));
             }
             Expr::Loop(w) => {
                 let n = self.cx.loops;
                 self.cx.loops += 1;
+                self.cx.loop_heads.push("loop".to_string());
                 w.body.stmts.insert(0, marker_stmt("__vp_loop", &n.to_string()));
             }
             Expr::ForLoop(w) => {
                 let n = self.cx.loops;
                 self.cx.loops += 1;
+                let (pt, ex) = (&w.pat, &w.expr);
+                self.cx.loop_heads.push(norm(quote!(for #pt in #ex)));
                 w.body.stmts.insert(0, marker_stmt("__vp_loop", &n.to_string()));
             }
             Expr::Closure(c) => {
@@ -639,6 +645,64 @@ impl<'c, 'a> VisitMut for Numberer<'c, 'a> {
             _ => {}
         }
         visit_mut::visit_expr_mut(self, e);
+    }
+}
+
+// --- loops named by their head
+/// actual ordinal -> contract label. Named contract loops claim the loop whose head starts with their text (the one at their own
+/// ordinal first, else the first unclaimed match); the remaining loops keep their ordinal when it is free and otherwise get a
+/// label no contract uses. Returns also the named contract loops for which no loop was found.
+fn match_loops(heads: &[String], anchors: &serde_json::Map<String, Value>) -> (Vec<usize>, Vec<usize>) {
+    let n = heads.len();
+    let mut label_of: Vec<Option<usize>> = vec![None; n];
+    let mut vanished = vec![];
+    let mut named: Vec<(usize, String)> = anchors.iter().filter_map(|(k, v)| Some((k.parse::<usize>().ok()?, v.as_str()?.to_string()))).collect();
+    named.sort();
+    let normalize = |s: &str| -> String { match s.parse::<TokenStream>() { Ok(ts) => norm(ts), Err(_) => s.chars().filter(|c| !c.is_whitespace()).collect() } };
+    // pass 1: a named loop whose own ordinal matches keeps it
+    let mut pending = vec![];
+    for (label, a) in named.iter() {
+        let a = normalize(a);
+        if *label < n && label_of[*label].is_none() && heads[*label].starts_with(&a) {
+            label_of[*label] = Some(*label);
+        } else {
+            pending.push((*label, a));
+        }
+    }
+    // pass 2: first unclaimed loop with a matching head
+    for (label, a) in pending {
+        match (0..n).find(|&i| label_of[i].is_none() && heads[i].starts_with(&a)) {
+            Some(i) => label_of[i] = Some(label),
+            None => vanished.push(label),
+        }
+    }
+    let used: Vec<usize> = label_of.iter().flatten().cloned().collect();
+    let named_labels: Vec<usize> = named.iter().map(|(l, _)| *l).collect();
+    let mut out = vec![];
+    for i in 0..n {
+        out.push(match label_of[i] {
+            Some(l) => l,
+            None => if !used.contains(&i) && !named_labels.contains(&i) { i } else { 5000 + i },
+        });
+    }
+    (out, vanished)
+}
+struct RelabelLoops<'x> { map: &'x [usize] }
+impl<'x> VisitMut for RelabelLoops<'x> {
+    fn visit_block_mut(&mut self, b: &mut Block) {
+        if let Some(first) = b.stmts.first_mut() {
+            let s = norm(first.to_token_stream());
+            if let Some(rest) = s.strip_prefix("__vp_loop!(") {
+                if let Some(num) = rest.strip_suffix(");") {
+                    if let Ok(k) = num.parse::<usize>() {
+                        if k < self.map.len() && self.map[k] != k {
+                            *first = marker_stmt("__vp_loop", &self.map[k].to_string());
+                        }
+                    }
+                }
+            }
+        }
+        visit_mut::visit_block_mut(self, b);
     }
 }
 
@@ -1347,7 +1411,7 @@ pub fn extract_fn(file: &syn::File, name: &str, opts: &Value, rules: &[Rule], pl
         let mut block = pf.block.take().ok_or("parent of lifted closure has no body")?;
         let stripped = strip_attr_tokens(block.to_token_stream());
         block = syn::parse2(stripped).map_err(|e| format!("re-parse after attribute stripping: {}", e))?;
-        let mut dummy = Ctx { rules, opts, plan, log: vec![], errors: vec![], loops: 0, closures: 0, dasserts: 0 };
+        let mut dummy = Ctx { rules, opts, plan, log: vec![], errors: vec![], loops: 0, closures: 0, dasserts: 0, loop_heads: vec![] };
         // the parent's local aliases (R30) are eliminated first so that the closure body mentions places of the parent
         if let Some(al) = lifted["parent_aliases"].as_array() {
             for a in al {
@@ -1463,7 +1527,7 @@ pub fn extract_fn(file: &syn::File, name: &str, opts: &Value, rules: &[Rule], pl
         all_rules.extend(rules.iter().cloned());
     }
     let rules: &[Rule] = &all_rules;
-    let mut cx = Ctx { rules, opts, plan, log: vec![], errors: vec![], loops: 0, closures: 0, dasserts: 0 };
+    let mut cx = Ctx { rules, opts, plan, log: vec![], errors: vec![], loops: 0, closures: 0, dasserts: 0, loop_heads: vec![] };
     let src_line = f.sig.ident.span().start().line;
 
     // signature: lifetimes, type map
@@ -1556,6 +1620,8 @@ pub fn extract_fn(file: &syn::File, name: &str, opts: &Value, rules: &[Rule], pl
     let where_clause = f.sig.generics.where_clause.as_ref().map(|w| one_line(w.predicates.to_token_stream())).unwrap_or_default();
 
     let mut body_lines = vec![];
+    let mut vanished_proofs: Vec<String> = vec![];
+    let mut vanished_loops: Vec<usize> = vec![];
     let has_body = f.block.is_some();
     if let Some(mut block) = f.block.take() {
         // R1: attributes
@@ -1565,6 +1631,20 @@ pub fn extract_fn(file: &syn::File, name: &str, opts: &Value, rules: &[Rule], pl
         // numbering
         if !pre_numbered {
             Numberer { cx: &mut cx }.visit_block_mut(&mut block);
+            // loops whose contract names them by the text of their head (`loop N /while let Some(x) = ../`) keep their contract
+            // number when loops before them appear or disappear; a named loop that no longer exists is reported as vanished
+            if let Some(la) = opts["loop_anchors"].as_object() {
+                if !la.is_empty() {
+                    let (map, vanished) = match_loops(&cx.loop_heads, la);
+                    RelabelLoops { map: &map }.visit_block_mut(&mut block);
+                    vanished_loops = vanished;
+                    for (actual, label) in map.iter().enumerate() {
+                        if actual != *label {
+                            cx.log.push(json!({"rule": "anchor", "line": src_line, "what": format!("loop #{} in source order is loop {} of the contract (matched by its head)", actual, label)}));
+                        }
+                    }
+                }
+            }
         } else {
             cx.loops = 1000;
             cx.closures = 1000;
@@ -1576,6 +1656,10 @@ pub fn extract_fn(file: &syn::File, name: &str, opts: &Value, rules: &[Rule], pl
                 let place = a["place"].as_str().unwrap();
                 let anchor = a["anchor"].as_str().unwrap_or("");
                 let nth = a["nth"].as_u64().unwrap_or(0) as usize;
+                if (place == "loopstart" || place == "loopend") && vanished_loops.contains(&nth) {
+                    vanished_proofs.push(id.to_string());
+                    continue;
+                }
                 if let Err(e) = insert_anchor(&mut block, id, place, anchor, nth, matches!(f.sig.output, syn::ReturnType::Default)) {
                     cx.errors.push(e);
                 }
@@ -1669,7 +1753,7 @@ pub fn extract_fn(file: &syn::File, name: &str, opts: &Value, rules: &[Rule], pl
         },
         "has_body": has_body,
         "body": lines_json(&body_lines),
-        "loops": cx.loops, "closures": cx.closures, "dasserts": cx.dasserts,
+        "loops": cx.loops, "closures": cx.closures, "dasserts": cx.dasserts, "vanished_loops": vanished_loops, "vanished_proofs": vanished_proofs,
         "rewrites": log, "errors": cx.errors, "src_line": src_line,
     }))
 }
